@@ -221,6 +221,8 @@ EXTRA = {
            "transaction is over must get its own reply).",
     "C12": " Session 5: the canonical state contains every container attribute of the handler; a second search starts from a working configuration "
            "(report linked, enabled, reported once) with delete / redefine / relink events to depth 3 + 6 (3 + 7).",
+    "C09": " Session 5: script srv_connect_close_at_once (peer connects and closes at once, returns, selects, disable) at K = 1 - reports a known "
+           "finding on the pinned tree (disable() never returns; known_findings.json, replays under /verif/findings).",
     "C14": " Session 5: all 256 byte values of a BOOLEAN item through Item.decode (alone, array, two length bytes, in a list).",
     "C15": " Session 5: all A / J / B single-byte items rendered and parsed back one after the other in one process, four orders (history kept in caches).",
     "C19": " Session 5: comments that swallow the following line, read right after the text they equal up to white space; list names that coincide "
